@@ -608,16 +608,17 @@ char *recip;
 
 stralloc bouncetext = {0};
 
-void addbounce(id,recip,report)
+void addbounce(id,recip,report,flagstrip)
 unsigned long id;
 char *recip;
 char *report;
+int flagstrip; /* local channel: rewrite() may have prepended a virtual user; it never does for remote */
 {
  int fd;
  unsigned int pos;
  int w;
  while (!stralloc_copys(&bouncetext,"<")) nomem();
- while (!stralloc_cats(&bouncetext,stripvdomprepend(recip))) nomem();
+ while (!stralloc_cats(&bouncetext,flagstrip ? stripvdomprepend(recip) : recip)) nomem();
  for (pos = 0;pos < bouncetext.len;++pos)
    if (bouncetext.s[pos] == '\n')
      bouncetext.s[pos] = '_';
@@ -949,7 +950,7 @@ int c;
 	   log3("delivery ",strnum3,": failure: ");
 	   logsafe(dline[c].s + 2);
 	   log1("\n");
-	   addbounce(jo[d[c][delnum].j].id,d[c][delnum].recip.s,dline[c].s + 2);
+	   addbounce(jo[d[c][delnum].j].id,d[c][delnum].recip.s,dline[c].s + 2,c == 0);
 	   markdone(c,jo[d[c][delnum].j].id,d[c][delnum].mpos);
 	   --jo[d[c][delnum].j].numtodo;
 	   break;
